@@ -110,7 +110,12 @@ def dds_hash(x: Any) -> PyHash:
         if isinstance(elt, float):
             return _algo_bytes(struct.pack("!d", elt))
         if isinstance(elt, int):
-            return _algo_bytes(struct.pack("!l", elt))
+            if -(2**31) <= elt < 2**31:
+                return _algo_bytes(struct.pack("!l", elt))
+            # Outside of the range of struct's 'l' format: tagged decimal encoding.
+            # The tag is not valid UTF-8 and is longer than any fixed-width number encoding,
+            # so it cannot collide with the encoding of a string, an int or a float.
+            return _algo_bytes(b"\xff__DDS_BIGINT__" + str(elt).encode("utf-8"))
         if isinstance(elt, CanonicalPath):
             return _algo_str(repr(elt))
         if isinstance(elt, list):
